@@ -22,10 +22,10 @@ _LOW = dict(ROReplace=0.3, RODelete=0.25, ReadyToAir=0.3, MetadataReplace=0.6)
 PROFILES = {
     # name: knobs
     'story': dict(weights=_w(0.15, **{t: 1.0 for t in STORY_OPS}, **_LOW), max_stories=8, max_steps=24,
-                  meta_placement=['before', 'mixed', 'mixed', 'after'], max_items=3, max_paras=2, cli_mid=0.02),
+                  meta_placement=['before', 'mixed', 'mixed', 'after'], max_items=3, max_paras=2, cli_mid=0.02, blank_id_rate=0.03),
     'item': dict(weights=_w(0.12, **{t: 1.0 for t in ITEM_OPS}, StorySend=0.4, StoryAppend=0.3, **_LOW),
                  max_stories=5, max_steps=24, max_items=6, max_paras=4, cli_mid=0.02),
-    'mixed': dict(weights=_w(1.0, **_LOW), max_stories=7, max_steps=30, max_items=5, max_paras=3, cli_mid=0.02),
+    'mixed': dict(weights=_w(1.0, **_LOW), max_stories=7, max_steps=30, max_items=5, max_paras=3, cli_mid=0.02, blank_id_rate=0.03),
     'meta': dict(weights=_w(0.3, MetadataReplace=2.5, ROReplace=0.8, RODelete=0.3, ReadyToAir=0.5), max_stories=5, max_steps=16),
     'end': dict(weights=_w(0.6, RODelete=1.5, ROReplace=0.3), max_stories=5, max_steps=20, force_after_end=True),
     'alias': dict(weights=_w(0.4, StoryAppend=1.5, StoryInsert=1.5, StoryReplace=1.5, EAStoryInsert=1.5, EAStoryReplace=1.5,
@@ -275,7 +275,49 @@ def generate_huge(seed):
             'double': False, 'twin': False, 'prefix': 'ro/'}, 'steps': steps, 'dropped': []}
 
 
+def generate_bigbatch(seed):
+    """a collection of a few hundred small messages whose key order differs from their id order"""
+    from .ncs import Ncs
+    P = dict(PROFILES['collection'], max_items=1, max_paras=0, others=False)
+    g = Ncs(seed, P, False)
+    R = g.R
+    content = [T('roID', g.ro_id), T('roSlug', 'big')] + [g.gen_story(n_items=0) for _ in range(2)]
+    g.truth = ids_of_content(content)
+    mid = R.choice([1, 95, 9990])
+    steps = [{'k': 'create', 'op': {'type': 'ROCreate', 'mid': mid, 'ro_id': g.ro_id, 'payload': content, 'env': {}},
+              'knobs': {}, 'path': 'str', 'key': 'k%05d.mos.xml' % R.randint(0, 99999)}]
+    n = R.randint(203, 260)
+    for i in range(n):
+        mid += R.choice([1, 1, 2, 7, 90])
+        if i == n - 1:
+            op = {'type': 'RODelete', 'ro_id': g.ro_id, 'shapes': {}}
+        elif R.random() < 0.1:
+            saved = g.weights
+            g.weights = {'StoryAppend': 1.0, 'StoryDelete': 0.5, 'EAStoryMove': 0.5}
+            op = g.gen_op()
+            g.weights = saved
+        else:
+            op = {'type': 'ReadyToAir', 'ro_id': g.ro_id, 'shapes': {}, 'air': 'READY'}
+        op.update(mid=mid, env={})
+        steps.append({'k': 'msg', 'op': op, 'knobs': {}, 'path': 'bytes', 'merge': False,
+                      'key': 'k%05d-%d.mos.xml' % (R.randint(0, 99999), i)})
+    sel = list(range(len(steps)))
+    order = list(sel)
+    R.shuffle(order)
+    perms = [list(range(len(sel))), list(reversed(range(len(sel))))]
+    p2 = list(range(len(sel)))
+    R.shuffle(p2)
+    perms.append(p2)
+    steps.append({'k': 'batch', 'select': order, 'kind': 'plain', 'ctor': R.choice(['s3', 's3', 'files', 'strings']),
+                  'allow_incomplete': R.random() < 0.5, 'strict': R.random() < 0.5, 'perms': perms, 'cross': True,
+                  'page_size': R.choice([7, 100, 1000]), 'noise_keys': False, 'slots': False})
+    return {'version': 1, 'seed': seed, 'profile': 'bigbatch', 'config': {'profile': 'bigbatch', 'faulty': False, 'page_size': 1000,
+            'double': False, 'twin': False, 'prefix': 'ro/'}, 'steps': steps, 'dropped': []}
+
+
 def generate(seed, profile_name, faulty=None):
+    if profile_name == 'bigbatch':
+        return generate_bigbatch(seed)
     if profile_name == 'huge':
         return generate_huge(seed)
     if profile_name == 'kofn':
